@@ -140,6 +140,9 @@ def check_equivalence(ctx, oq, AWQBitsTensor, rng, out_f, in_f, degenerate):
                 w[r_, :128] = 0
             elif c < 0.5:
                 w[r_] = 0.125
+            elif c < 0.75:
+                # tiny rows: the float16 scale of their groups is subnormal (its reciprocal overflows float16)
+                w[r_] = w[r_] * float(rng.choice([1e-4, 1e-5, 2e-6, 3e-7]))
     w = w.to(torch.float16)
     q = oq.quantize_weight(w, oq.qint4, 0, 128)
     inn, _ = fp.inner(q)
@@ -162,7 +165,8 @@ def check_equivalence(ctx, oq, AWQBitsTensor, rng, out_f, in_f, degenerate):
     Z = zp.to(F64).reshape(-1, 1)
     C = codes.to(F64)
     mag = torch.maximum((S * C).abs(), (S * Z).abs()).reshape(ds.shape)
-    tol = 1.0 * num.ulp(mag, torch.float16) + num.ulp(ds.to(F64), torch.float16)
+    # AWQ path: fl(fl(s*code) + fl(-zp*s)) = three roundings of at most half an ulp at that magnitude, the standard path one
+    tol = 2.0 * num.ulp(mag, torch.float16) + num.ulp(ds.to(F64), torch.float16)
     diff = (da.to(F64) - ds.to(F64)).abs()
     bad = ~(diff <= tol)
     if (tol > 0).any():
